@@ -112,9 +112,11 @@ fn check(ck: &mut Checker, backend: u8, class: u8, data: &[u8], place: Place) {
 /// A scan entered `pre` bytes into the buffer. The journal / replay encoding carries `pre` in the
 /// backend byte's high bits (backend | pre << 3, pre <= 31).
 fn check_from(ck: &mut Checker, backend: u8, class: u8, data: &[u8], pre: usize, place: Place) {
-    debug_assert!(pre <= 31 && pre <= data.len());
-    let code = backend | ((pre as u8) << 3);
-    let lane = pseudo_lane(code, class, place);
+    debug_assert!(pre <= 255 && pre <= data.len());
+    // (`pre` travels in the capacity word of the pseudo lane: 100 + class + (pre << 8))
+    let code = backend;
+    let mut lane = pseudo_lane(code, class, place);
+    lane.cap += (pre as u32) << 8;
     let mut enc = lane.encode();
     enc[0] = 100 + class;
     ck.caller.slot.begin(&enc, data);
@@ -129,11 +131,17 @@ fn check_from(ck: &mut Checker, backend: u8, class: u8, data: &[u8], pre: usize,
         Ok(None) => return,
         Err(_) => {
             report(ck, code, class, data, place, format!("the scanner panicked (entered {} bytes into the buffer)", pre), exp);
+            if let Some(v) = ck.violations.last_mut() {
+                v.lane.cap += (pre as u32) << 8;
+            }
             return;
         }
     };
     if got != exp {
         report(ck, code, class, data, place, format!("entered {} bytes into the buffer, stopped at {}", pre, got), exp);
+        if let Some(v) = ck.violations.last_mut() {
+            v.lane.cap += (pre as u32) << 8;
+        }
     }
 }
 
@@ -292,7 +300,14 @@ pub fn add_grids(p: &mut Plan, q: bool, boundary_words: bool) {
     // after the first value byte, after a fold; any scanner after earlier tokens): what lies
     // before the cursor — including line ends — must not matter, and must not be read past
     let mut tasks: Vec<TaskFn> = Vec::new();
-    let prefixes: [&[u8]; 6] = [b"v", b"\r\n", b"a:\r\n\t", b"GET /", b"vvvvvvvvvvvvvvv\r\n", b"N: vvvvvvvvvvvvvvvvvvvvvvv\r\n \t"];
+    let prefixes: [&[u8]; 10] = [
+        b"v", b"\r\n", b"a:\r\n\t", b"GET /", b"vvvvvvvvvvvvvvv\r\n", b"N: vvvvvvvvvvvvvvvvvvvvvvv\r\n \t",
+        // 32 and more bytes behind the cursor (overlapping tail loads reach back that far)
+        b"vvvvvvvvvvvvvvvvvvvvvvvvvvvvvv\r\n",
+        b"N: vvvvvvvvvvvvvvvvvvvvvvvvvvvvvvvvvvvvvvvv\r\n \t",
+        b"Set-Cookie: vvvvvvvvvvvvvvvvvvvvvvvvvvvvvvvvvvvvvvvvvvvvvvvvvvvvvvvvvvvvvvvvvvvvvvvvvvvvvvvvvvvvvvvvvvvvvvvvvvvvvv\r\n\t",
+        b"GET /aaaaaaaaaaaaaaaaaaaaaaaaaaaaaaaaaaaaaaaaaaa\x00",
+    ];
     for class in 0..3u8 {
         for backend in backends_for(class) {
             for place in [Place::EndFlush, Place::StartFlush, Place::Hostile(0), Place::Hostile(5)] {
@@ -322,8 +337,8 @@ pub fn add_grids(p: &mut Plan, q: bool, boundary_words: bool) {
             }
         }
     }
-    p.phases.push(Phase { label: "S3: scanners entered 1..31 bytes into the buffer (6 prefixes incl. line ends) × L≤72 × position × 6 offending bytes × 4 placements".into(), backend: Backend::Native, tasks });
-    p.bounds.push("S3 non-fresh cursor: every scanner entered after 6 different already-consumed prefixes (1..31 bytes, some containing CR LF), run length 0..=72, offending byte at every position, placements end-flush / start-flush / hostile".into());
+    p.phases.push(Phase { label: "S3: scanners entered 1..128 bytes into the buffer (10 prefixes incl. line ends) × L≤72 × position × 6 offending bytes × 4 placements".into(), backend: Backend::Native, tasks });
+    p.bounds.push("S3 non-fresh cursor: every scanner entered after 10 different already-consumed prefixes (1..128 bytes, some containing CR LF or a NUL right behind the cursor), run length 0..=72, offending byte at every position, placements end-flush / start-flush / hostile".into());
     // every pair of byte values at adjacent positions (carries / borrows between neighbouring
     // lanes of the word-at-a-time tricks, lane shuffles of the vector scanners)
     let mut tasks: Vec<TaskFn> = Vec::new();
@@ -405,8 +420,9 @@ pub fn add_grids(p: &mut Plan, q: bool, boundary_words: bool) {
 
 pub fn replay(text: &str) -> i32 {
     let code = json::get_num(text, "config").unwrap_or(0) as u8;
-    let (backend, pre) = (code & 7, (code >> 3) as usize);
-    let class = (json::get_num(text, "capacity").unwrap_or(100) - 100) as u8;
+    let capw = json::get_num(text, "capacity").unwrap_or(100);
+    let (backend, pre) = (code & 7, if capw >> 8 != 0 { (capw >> 8) as usize } else { (code >> 3) as usize });
+    let class = ((capw & 0xff) - 100) as u8;
     let place = match json::get_num(text, "place").unwrap_or(0) {
         0 => Place::EndFlush,
         1 => Place::StartFlush,
